@@ -171,7 +171,7 @@ def scenario(sim):
 
     plog = []
     spk = ssh.byzantine_packetizer("s", plog, mutate_out=mutate_out)
-    p = ssh.tapped_pair(sim, link=link, host_keys=(ssh.HOSTKEY_ALGOS[halgo],), server_pk=spk)
+    p = ssh.tapped_pair(sim, link=link, host_keys=(ssh.HOSTKEY_ALGOS[halgo],), server_pk=spk, plog=plog)
     p.plog = plog
     for t in (p.tc, p.ts):
         ssh.configure(t, kex=kex, hostkey_algo=halgo)
